@@ -39,7 +39,7 @@ struct E4 : Engine {
 		p["strategy"] = (int)r.below(3); p["pct_depth"] = 1 + (int)r.below(3); p["pct_len"] = 100 + (int)r.below(3000);
 		unsigned x = r.below(10); std::string mode = x < 5 ? "seq" : x < 8 ? "conc" : "fault"; p["mode"] = mode;
 		int ns = 1 + r.below(2); p["servers"] = ns; p["server_threads"] = 1 + (int)r.below(2);
-		int nc = 2 + r.below(2); J cl = J::arr(); for(int i=0;i<nc;i++){ J c = J::obj(); unsigned y = r.below(4); c["l1"] = y == 0 ? -1 : y == 1 ? 0 : (int)(1 + r.below(4)); c["threads"] = 1 + (int)r.below(2); c["skew_s"] = mode == "fault" && r.below(3) == 0 ? (int)r.below(7) - 3 : 0; cl.push(c); }
+		int nc = 2 + r.below(2); J cl = J::arr(); for(int i=0;i<nc;i++){ J c = J::obj(); unsigned y = r.below(4); c["l1"] = y == 0 ? -1 : y == 1 ? 0 : (int)(1 + r.below(4)); c["threads"] = 1 + (int)r.below(2); c["skew_s"] = mode == "fault" && r.below(3) == 0 ? (int)r.below(7) - 3 : 0; if(i == 0 && c.geti("l1") >= 0 && r.below(3) == 0) c["l1_process"] = 1; cl.push(c); }
 		p["clients"] = cl;
 		p["p_short_read"] = r.below(2) ? (int)r.below(400) : 0; p["p_short_write"] = r.below(2) ? (int)r.below(400) : 0; p["chan_cap"] = (int)(r.below(3) == 0 ? 1 + r.below(100) : 4096 + r.below(60000));
 		int nkeys = 1 + r.below(4), ntrig = r.below(4); int koff = r.below(3) ? 0 : (int)r.below(7); bool nul_trig = r.below(6) == 0;
@@ -126,9 +126,9 @@ struct E4 : Engine {
 			for(unsigned s=0;s<ns;s++){ simk::set_node(10 + (int)s); start_server(s); ips.push_back("127.0.0.1"); ports.push_back(6001 + (int)s); }
 			simk::set_node(0);
 			const J &cls = plan.get("clients"); size_t nc = std::max<size_t>(1,std::min<size_t>(cls.size(),4));
-			std::vector<Node> nodes(nc);
+			std::vector<Node> nodes(nc); bool process_l1_used = false;
 			for(size_t i=0;i<nc;i++){ const J &c = i < cls.size() ? cls.a[i] : J(); int l1 = (int)c.geti("l1",-1); nodes[i].l1 = l1; nodes[i].skew = (int)std::max<int64_t>(-10,std::min<int64_t>(c.geti("skew_s"),10));
-				booster::intrusive_ptr<base_cache> l1c; if(l1 >= 0) l1c = cppcms::impl::thread_cache_factory((unsigned)l1);
+				booster::intrusive_ptr<base_cache> l1c; if(l1 >= 0 && c.geti("l1_process") && !process_l1_used){ process_l1_used = true; l1c = cppcms::impl::process_cache_factory(1u << 20,(unsigned)l1); res.counters["process_shared_l1_runs"] = 1; }   /* the first-level cache of (at most) one node is the process-shared one (cache.backend process_shared in front of cache.tcp) */ else if(l1 >= 0) l1c = cppcms::impl::thread_cache_factory((unsigned)l1);
 				nodes[i].cache = cppcms::impl::tcp_cache_factory(ips,ports,l1c); if(nodes[i].skew) simk::set_node_skew_us(1 + (int)i,nodes[i].skew * 1000000LL); }
 			// decode ops
 			const J &jops = plan.get("ops"); std::vector<Op> ops; std::vector<std::pair<int,int>> who; std::vector<int> ticks;
